@@ -153,17 +153,22 @@ def make_objective(ctx, spec):
     return fun
 
 
-def make_constraint_fun(ctx, j, spec):
-    """Return the callable of nonlinear constraint object j."""
+def make_constraint_fun(ctx0, j, spec, shared=False):
+    """Return the callable of nonlinear constraint object j.  With shared=True the very same function object
+    serves several concurrent clients (C11.d): the client is then looked up from the calling thread."""
     comps = spec["comps"]
     ret = spec.get("ret", "ndarray")
-    has_obj = ctx.stmt.get("obj") is not None
-    twin = bool(ctx.stmt.get("twin"))
+    has_obj = ctx0.stmt.get("obj") is not None
+    twin = bool(ctx0.stmt.get("twin"))
 
-    emb = ctx.stmt.get("embed")
-    n_full = len(emb["fixed_idx"]) if emb is not None else ctx.stmt["n"]
+    emb = ctx0.stmt.get("embed")
+    n_full = len(emb["fixed_idx"]) if emb is not None else ctx0.stmt["n"]
 
     def con(x, *args):
+        ctx = ctx0
+        if shared:
+            from . import probes
+            ctx = probes.cur() or ctx0
         xa = np.array(x, dtype=float)
         if emb is not None and xa.shape == (ctx.stmt["n"],):
             xa = embed_map(emb, xa)
